@@ -492,7 +492,11 @@ class SynGen:
 			self.f.add('stmt:with')
 			items = []
 			for _ in range(r.choice([1, 1, 2])):
-				items.append(self.expr(d - 1) + (' as ' + self.name() if r.random() < 0.6 else ''))
+				e = self.expr(d - 1)
+				# `with (a, b):` is two parenthesised with-items for CPython >= 3.9 but one tuple-valued item for the lark grammar
+				# (open finding of C02); a leading parenthesis is only kept together with `as`
+				force_as = e.startswith('(') and not self.o.get('with_paren_tuple', False)
+				items.append(e + (' as ' + self.name() if force_as or r.random() < 0.6 else ''))
 			return self.suite('with ' + ', '.join(items) + ':', d, level, in_func, in_loop)
 		if x < 0.96:
 			kind = None
